@@ -22,10 +22,15 @@ type c19Inv struct {
 	API     bool
 	DNE     bool
 	Package string
+	Base    string // --basepath ("" = not given)
 }
 
 func (i c19Inv) String() string {
-	return fmt.Sprintf("%s/client=%v/api=%v/dne=%v/pkg=%s", i.Spec, i.Client, i.API, i.DNE, i.Package)
+	s := fmt.Sprintf("%s/client=%v/api=%v/dne=%v/pkg=%s", i.Spec, i.Client, i.API, i.DNE, i.Package)
+	if i.Base != "" {
+		s += "/base=" + i.Base
+	}
+	return s
 }
 
 var c19Owned = []string{"components.go", "handler.go", "router.go", "spec_file.go", "client.go"}
@@ -62,6 +67,13 @@ func c19Specs() map[string][]byte {
 		d.Op(p, "get", op)
 	}
 	out["D"] = specgen.MustJSON(d.Root)
+	// E: a legal component name that is no Go identifier: goag writes the
+	// files unformatted, logs the format error and exits 0 (recorded C01
+	// finding); the directory must still reflect this invocation alone
+	e := specgen.NewDoc("E")
+	e.Comp("schemas", "order-line", specgen.Obj([]string{"sku"}, specgen.M{"sku": specgen.Prim("string", ""), "qty": specgen.Prim("integer", "int32")}))
+	e.Op("/orders", "get", specgen.M{"responses": specgen.M{"200": specgen.Resp("ok", specgen.Arr(specgen.Ref("schemas", "order-line")))}})
+	out["E"] = specgen.MustJSON(e.Root)
 	return out
 }
 
@@ -89,9 +101,13 @@ func C19(r *core.Run) int {
 		_ = os.WriteFile(filepath.Join(specDir, k, "openapi.json"), bs, 0o644)
 	}
 	args := func(inv c19Inv, out string) []string {
-		return []string{"--file", filepath.Join(specDir, inv.Spec, "openapi.json"), "--out", out, "--package", inv.Package,
+		a := []string{"--file", filepath.Join(specDir, inv.Spec, "openapi.json"), "--out", out, "--package", inv.Package,
 			fmt.Sprintf("--client=%v", inv.Client), fmt.Sprintf("--api-handler=%v", inv.API), fmt.Sprintf("--donotedit=%v", inv.DNE),
 			"--config", filepath.Join(specDir, inv.Spec, ".goag.yaml")}
+		if inv.Base != "" {
+			a = append(a, "--basepath", inv.Base)
+		}
+		return a
 	}
 	// base alphabet of the exhaustive part
 	var base []c19Inv
@@ -135,15 +151,16 @@ func C19(r *core.Run) int {
 		nRand = 2500
 	}
 	rng := rand.New(rand.NewSource(r.Seed))
-	specKeys := []string{"A", "B", "C", "D"}
+	specKeys := []string{"A", "B", "C", "D", "E"}
 	for i := 0; i < nRand; i++ {
 		n := 4 + rng.Intn(5)
 		var h []c19Inv
 		for j := 0; j < n; j++ {
-			inv := c19Inv{Spec: specKeys[rng.Intn(4)], Client: rng.Intn(2) == 0, API: rng.Intn(4) != 0, DNE: rng.Intn(2) == 0, Package: "gen"}
+			inv := c19Inv{Spec: specKeys[rng.Intn(len(specKeys))], Client: rng.Intn(2) == 0, API: rng.Intn(4) != 0, DNE: rng.Intn(2) == 0, Package: "gen"}
 			if rng.Intn(6) == 0 {
 				inv.Package = "other"
 			}
+			inv.Base = []string{"", "", "/v1", "/v2"}[rng.Intn(4)]
 			h = append(h, inv)
 		}
 		histories = append(histories, h)
@@ -267,7 +284,7 @@ func C19(r *core.Run) int {
 	cov := map[string]any{
 		"evaluations":         len(histories),
 		"distinct_nontrivial": len(histories) - len(base),
-		"rule":                "one evaluation = one history of real CLI invocations into one directory holding user files, compared (names, sha256, user-file mtime) with a single run of its last invocation into an empty directory, then the last invocation repeated; distinct = histories of length >= 2; exhaustive part: all 584 histories of length <= 3 over {spec with / without components} x {client on/off} x {api-handler on/off}; random part: length 4-8 over 4 specs (longer/shorter outputs), do-not-edit on/off, two package names",
+		"rule":                "one evaluation = one history of real CLI invocations into one directory holding user files, compared (names, sha256, user-file mtime) with a single run of its last invocation into an empty directory, then the last invocation repeated; distinct = histories of length >= 2; exhaustive part: all 584 histories of length <= 3 over {spec with / without components} x {client on/off} x {api-handler on/off}; random part: length 4-8 over 5 specs (longer/shorter outputs, one whose output does not format), do-not-edit on/off, two package names, base path absent / v1 / v2",
 		"samples":             samples,
 		"exhaustive":          true,
 		"exhaustive_space":    fmt.Sprintf("%d histories of length <= 3 over %d invocations", nExh, len(base)),
